@@ -142,6 +142,14 @@ func c33Engine() *Engine {
 		}
 		var cases []csvCase
 		cases = append(cases, csvCase{kind: "clean", chunkSize: 1000000, content: clean})
+		// two imports in one session: a file with a header row and a control file
+		// that says so, then a header-less file whose control file names the columns
+		// and leaves the other keys at their defaults (nothing of the first import's
+		// configuration may carry over)
+		headerless := strings.Join(lines[1:], "\n") + "\n"
+		for _, cs := range []int{1, 3, 1000000} {
+			cases = append(cases, csvCase{kind: "second-import-headerless", chunkSize: cs, content: headerless})
+		}
 		for _, cs := range chunks {
 			if cs >= 1 {
 				cases = append(cases, csvCase{kind: "clean", chunkSize: cs, content: clean})
@@ -226,6 +234,11 @@ func c33Engine() *Engine {
 			}
 			wf("/import/data.csv", cs.content)
 			wf("/import/ctl.yaml", csvCtl)
+			if cs.kind == "second-import-headerless" {
+				wf("/import/first.csv", clean)
+				wf("/import/first.yaml", csvCtl)
+				wf("/import/ctl.yaml", "columnNameMap: ["+header+"]\ntimeFormat: \"20060102 15:04:05\"\n")
+			}
 			var loadErr error
 			var rows []OutRow
 			var qerr error
@@ -237,6 +250,15 @@ func c33Engine() *Engine {
 				}
 				if e := n.Create(b); e != nil {
 					return
+				}
+				if cs.kind == "second-import-headerless" {
+					b1 := &Bucket{Sym: "CSVFIRST", TF: b.TF, Attr: b.Attr, Cols: b.Cols}
+					if e := n.Create(b1); e != nil {
+						return
+					}
+					if e := loadCSV(n, b1, "/import/first.csv", "/import/first.yaml", 1000000); e != nil {
+						return // the first, ordinary import is judged by the "clean" cases
+					}
 				}
 				switch cs.kind {
 				case "read-error":
@@ -288,8 +310,12 @@ func c33Engine() *Engine {
 				continue
 			}
 			if loadErr != nil {
+				if cs.kind == "clean" || cs.kind == "second-import-headerless" {
+					res.Count("wellformed-import-reported-error: "+cs.kind+": "+normMsg(loadErr.Error()), 1)
+				}
 				continue // an error was reported: allowed in every case
 			}
+			res.Count("import-completed-"+cs.kind, 1)
 			// no error reported: every data row must be there with its values
 			if cs.mustErr {
 				// a file with a malformed row cannot be loaded completely
